@@ -20,7 +20,7 @@ EXL_ALPHA = ALPHA.replace(",", "")
 
 def plan(tier):
     if tier == "quick":
-        return [("debug", 8, dict(ncfg=150, nexl=150, edits=10))]
+        return [("debug", 16, dict(ncfg=150, nexl=150, edits=10))]
     return [("debug", 16, dict(ncfg=1300, nexl=1300, edits=14)), ("release", 2, dict(ncfg=300, nexl=300, edits=10))]
 
 
